@@ -22,6 +22,7 @@ func init() {
 			"R3":  "fold flag and fold round together, only in the fold method",
 			"R4":  "3-bet uniqueness loops; guard object = acting player at every call site",
 			"R5":  "per-hand reset from an all-zero constructor",
+			"R7":  "a chance flag is never taken back within a hand: outside the constructor it is stored only as the constant true (or false where the did-flag cannot have been set before)",
 			"R6":  "the engine's hand-state hook refreshes the chance statistics from every state received while the table is playing",
 		},
 		Assumptions: []string{"no emitted hand snapshot carries the game-level Started event during betting (pokerface; demonstrated by triage/TestF2)"},
@@ -66,6 +67,42 @@ func checkC14(c *Ctx) {
 	p := c.P
 	// R6: the chance flags are refreshed from every hand state received while playing
 	checkUpdateHook(c, "R6", "register", "stats")
+	// R7: within a hand a chance flag is never taken back once the did-flag may be set:
+	// outside the constructor a chance flag is stored only as the constant true, or as the
+	// constant false where the matching did-flag cannot have been set on the same path
+	{
+		pairs := didChancePairs(p)
+		chanceToDid := map[string]string{}
+		for did, ch := range pairs {
+			chanceToDid[ch] = did
+		}
+		n := 0
+		for _, ss := range p.Stores(p.Funcs) {
+			if ss.Owner != "TablePlayerGameStatistics" || chanceToDid[ss.Field] == "" || storeIsLocal(ss.Instr) {
+				continue
+			}
+			n++
+			v, isB := ss.Val.ConstBool()
+			switch {
+			case !isB:
+				c.Bad("R7", "chance-flag-monotone:"+ss.Field+"@"+FuncName(ss.Fn), p.InstrPos(ss.Instr), "the chance flag "+ss.Field+" is re-evaluated ("+ss.Val.String()+"): it can fall back to false after "+chanceToDid[ss.Field]+" was set, so 'did' no longer implies 'had the chance'")
+			case v:
+				c.Ok("R7", "chance-flag-monotone:"+ss.Field+"@"+FuncName(ss.Fn), p.InstrPos(ss.Instr), "set to true")
+			default:
+				// constant false: no store of true to the did-flag of the same object may precede it on a path
+				bad := false
+				for _, s2 := range p.Stores([]*ssa.Function{ss.Fn}) {
+					if s2.Owner == "TablePlayerGameStatistics" && s2.Field == chanceToDid[ss.Field] {
+						if b2, isB2 := s2.Val.ConstBool(); isB2 && b2 && reachesSameIteration(s2.Instr, ss.Instr) {
+							bad = true
+						}
+					}
+				}
+				c.Check(!bad, "R7", "chance-flag-monotone:"+ss.Field+"@"+FuncName(ss.Fn), p.InstrPos(ss.Instr), "cleared only where the did-flag was not set", "the chance flag "+ss.Field+" is cleared after "+chanceToDid[ss.Field]+" may have been set")
+			}
+		}
+		c.Min("R7", "chance-flag stores outside the constructor", n, 8)
+	}
 	pairs := didChancePairs(p)
 	c.Min("R1", "did/chance pairs in the statistics struct", len(pairs), 9)
 	ams := p.engineActionMethods()
@@ -495,4 +532,36 @@ func validatorRequiresStarted(p *Prog, f *ssa.Function) bool {
 	}}
 	wk.Run()
 	return ok && n > 0 && !wk.Aborted
+}
+
+// reachesSameIteration: b is reachable from a without going round a loop that contains both
+// (each iteration of such a loop concerns another player object).
+func reachesSameIteration(a, b ssa.Instruction) bool {
+	if a.Parent() != b.Parent() {
+		return false
+	}
+	if a.Block() == b.Block() {
+		return instrIndex(a) < instrIndex(b)
+	}
+	avoid := map[*ssa.BasicBlock]bool{}
+	for _, h := range loopHeaders(a.Parent()) {
+		if l := naturalLoop(h); l[a.Block()] && l[b.Block()] {
+			avoid[h] = true
+		}
+	}
+	seen := map[*ssa.BasicBlock]bool{}
+	st := append([]*ssa.BasicBlock{}, a.Block().Succs...)
+	for len(st) > 0 {
+		x := st[len(st)-1]
+		st = st[:len(st)-1]
+		if seen[x] || avoid[x] {
+			continue
+		}
+		seen[x] = true
+		if x == b.Block() {
+			return true
+		}
+		st = append(st, x.Succs...)
+	}
+	return false
 }
